@@ -77,6 +77,17 @@ CHECKS = [
         'note': 'native signals are polled every 2^18 ops, so native async stops are observed only there; for exceptions that '
                 'leave run() no statistics object exists to inspect',
     },
+    {
+        'property_id': 'C19', 'level': 'exploration', 'design_ref': 'DESIGN.md 4 C19',
+        'technique': 'runtime monitoring: scripted device accesses inside IO callbacks judged by the reference machine; independent decoder model for the screen command stream',
+        'text': 'Generated programs whose IO calls trigger scripted DeviceMemory reads/writes (words and packed bytes, code about '
+                'to run, lazy zeros, far segments, magic values) run on featured/fast/native flat/hybrid/paged; every value the '
+                'device reads, the effect of its writes on later ops and the final memory must equal the reference machine '
+                'executing the same script. The headless screen is fed random and structure-aware command streams and must '
+                'agree with an independently written decoder of the documented layout (frames, pixels, palette, rejection '
+                'point, device-error type); generated screen-driving programs must present the same frame hashes on all engines.',
+        'note': 'interactive pygame devices cannot be exercised (pygame absent); device writes outside segments are unspecified',
+    },
 ]
 
 _TODO = 'check not built yet in this session (work in progress; see DESIGN.md for the planned monitor)'
